@@ -91,7 +91,7 @@ def entries():
     simple('aic32->aic10', 'stdnum.it.aic', 'from_base32', 'stdnum.it.aic', inverse='to_base32', when=lambda v: len(v) == 6)
     simple('ie.vat old->new', 'stdnum.ie.vat', 'convert', 'stdnum.ie.vat', embed=lambda v, t: len(t) in (8, 9))
     simple('imei14->15', 'stdnum.imei', 'format', 'stdnum.imei', conv_kwargs={'add_check_digit': True, 'separator': ''},
-           embed=lambda v, t: len(t) == 15 and veq(t[:len(v)], v))
+           embed=lambda v, t: (len(t) == 15 and veq(t[:len(v)], v)) if len(v) == 14 else veq(t, v))   # 15 / 16 digits: unchanged
     simple('isan+check', 'stdnum.isan', 'validate', 'stdnum.isan', conv_kwargs={'add_check_digits': True}, inverse='validate', inv_mod='stdnum.isan')
     simple('meid->dec', 'stdnum.meid', 'format', 'stdnum.meid', conv_kwargs={'format': 'dec', 'separator': ''}, inverse='format', inv_mod='stdnum.meid')
     simple('meid->hex', 'stdnum.meid', 'format', 'stdnum.meid', conv_kwargs={'format': 'hex', 'separator': ''}, inverse='format', inv_mod='stdnum.meid')
@@ -103,6 +103,10 @@ def entries():
 def script(unit):
     src, build = entries()[unit['entry']]
     calls, obs = build()
+    if unit['entry'] in ('aic10->aic32', 'aic32->aic10') and unit['L'] != (9 if unit['entry'] == 'aic10->aic32' else 6):
+        # to_base32() expects the 9-digit base-10 spelling and from_base32() the 6-character base-32 one; validate() accepts
+        # both, so the conversion is only exercised on inputs of its own spelling (exact length, no separators)
+        obs = [(n, (lambda o: None)) for n, f in obs]
     if unit['entry'] == 'isan+check':
         # inverse: strip the check digits again and compare the stripped forms
         calls[3] = Call('stdnum.isan', 'validate', [R(1)], {'strip_check_digits': True}, label='strip(add)')
